@@ -134,7 +134,14 @@ def c09(tier, rng):
             (f', every string of <= 4 over {len(FRAGS_SMALL)} fragments' if tier == 'thorough' else '') +
             f'; characters whose low byte is an operator / digit / quote / blank character, after each operator prefix ({len(opchars)} x {len(highs)} code points x 15 contexts); {len(FOREIGN_NUMERALS)} numeral spellings of other languages and locales (hex, octal, exponents, digit-group separators in both scripts, suffixes) in 9 contexts; four texts of 100 000 – 1 000 000 distinct names / numbers in either script; {len(keyword_lookalikes())} keyword look-alikes (other normalisation forms, joiners, neighbours); {len(WORDS)} natural-language words (Bangla and English logic / arithmetic / control words that are NOT keywords) in 9 contexts; single code points (step {step} above U+3100, all below, each also inside a word); {n} seeded random texts with '
             'multi-line strings and comments; malformed UTF-8. Non-trivial = produces a token other than EOF or a diagnostic.')
-    return {'cases': cases, 'rule': rule, 'exhaustive': True}
+    # the text of a script file reaches the scanner as it is: a first line that looks like a directive to a shell, an
+    # editor or another language is scanned like any other (through the executable, against the model)
+    from .camp_cli import DIRECTIVE_LINES
+    cli = []
+    for first in DIRECTIVE_LINES:
+        for rest in ('', KW['print'] + ' 1;\n'):
+            cli.append(CliCase('first-line-directive', ['s.bn'], {'s.bn': (first + '\n' + rest).encode()}, b'', 's.bn'))
+    return {'cases': cases, 'cli': cli, 'rule': rule + f' {len(cli)} script files whose first line looks like a directive (shebang, pragma, coding line), through the executable.', 'exhaustive': True}
 
 # ---------------------------------------------------------------- C10
 
@@ -542,6 +549,12 @@ def c08(tier, rng):
     for i, src in enumerate(rejected):
         cases.append(run_case('run', src, label='rejected-runs-nothing'))
         cli.append(CliCase('rejected-runs-nothing', ['p.bn'], {'p.bn': src.encode()}, b'', 'p.bn'))
+    from .camp_cli import DIRECTIVE_LINES
+    for first in DIRECTIVE_LINES:
+        cli.append(CliCase('first-line-directive', ['p.bn'], {'p.bn': (first + '\n' + KW['print'] + ' "ran";\n').encode()}, b'', 'p.bn'))
+    # interactive mode: a line is a text of its own — a trailing backslash, a command of another shell are characters
+    for sess in [KW['print'] + ' 1; \\\n' + KW['print'] + ' 2;\n', '\\\n1 + 1;\n', KW['print'] + ' "a" \\\n;\n', 'exit\n1 + 1;\n', 'quit\n' + KW['print'] + ' 2;\n', ':q\n1;\n', 'help\n1;\n', '#!x\n1;\n']:
+        cli.append(CliCase('repl-line-is-a-text', [], {}, sess.encode(), None))
     nrand = 5000 if tier == 'quick' else 80000
     for i in range(nrand):
         r = rng.fork(i)
